@@ -114,11 +114,32 @@ class C11(Prop):
             return {'pair': [[flat(r, np) for r in np.asarray(a)] for a in pair],
                     'single': [[flat(r, np) for r in np.asarray(inv.station_angles(st, ph, radians=case['radians']))] for ph in (num, den)]}
         if k == 'relmatrix':
+            import copy as _copy
             data, loc = dg.to_mtfit(case['event'], np)
+            keep = _copy.deepcopy(data)
             a, amp, perr, names = inv.relative_amplitude_ratio_matrix(data, loc)
             a = np.asarray(a)
-            return {'a': [[flat(a[i, kk, :], np) for kk in range(a.shape[1])] for i in range(a.shape[0])], 'amp': flat(amp, np), 'perr': flat(perr, np),
-                    'names': list(names)}
+            res = {'a': [[flat(a[i, kk, :], np) for kk in range(a.shape[1])] for i in range(a.shape[0])], 'amp': flat(amp, np), 'perr': flat(perr, np),
+                   'names': list(names)}
+            # the event dictionary is converted again later (a second pass over the same data, e.g. double-couple then full-tensor inversion): it must be left as it was,
+            # and the second conversion must give the same matrices
+            def same(x, y):
+                if isinstance(x, dict):
+                    return isinstance(y, dict) and sorted(x) == sorted(y) and all(same(x[kk], y[kk]) for kk in x)
+                if isinstance(x, (list, tuple)):
+                    return isinstance(y, (list, tuple)) and len(x) == len(y) and all(same(u, v) for u, v in zip(x, y))
+                if hasattr(x, 'shape') or hasattr(y, 'shape'):
+                    return np.asarray(x).shape == np.asarray(y).shape and bool(np.all(np.asarray(x) == np.asarray(y)))
+                return x == y
+            res['input_unchanged'] = bool(same(keep, data))
+            try:
+                a2, amp2, perr2, names2 = inv.relative_amplitude_ratio_matrix(data, loc)
+                res['second_pass_same'] = bool(np.asarray(a2).shape == a.shape and np.array_equal(np.asarray(a2), a) and flat(amp2, np) == res['amp'] and flat(perr2, np) == res['perr']
+                                               and list(names2) == res['names'])
+            except Exception as e:
+                res['second_pass_same'] = False
+                res['second_pass_exc'] = '%s: %s' % (type(e).__name__, e)
+            return res
         data, loc = dg.to_mtfit(case['event'], np)
         if k == 'polmatrix':
             a, err, ipp = inv.polarity_matrix(data, loc)
@@ -278,6 +299,11 @@ class C11(Prop):
                     out.append(('misaligned', 'relative-amplitude row %d (%s): coefficients / amplitude / fractional error %r, %r, %r; the '
                                 'station\'s own values are %r, %r, %r' % (j, e[0], impl['a'][j][0][:3], impl['amp'][j], impl['perr'][j], e[1][0][:3], e[2], e[3]), None))
                     break
+            if not out and impl.get('input_unchanged') is False:
+                out.append(('purity', 'relative_amplitude_ratio_matrix changed the event dictionary it was given (station lists / measurements are used again by the next pass)', None))
+            if not out and impl.get('second_pass_same') is False:
+                out.append(('second-pass', 'converting the same event dictionary a second time gives different relative-amplitude matrices%s'
+                            % (' (%s)' % impl['second_pass_exc'] if impl.get('second_pass_exc') else ''), None))
             return out
         if k == 'angles-ratio':
             if len(impl['pair']) != 2:
